@@ -108,6 +108,18 @@ class Registry:
 
     def close(self):
         sys.modules.pop(self.modname, None)
+        for m in getattr(self, "submodules", {}).values():
+            sys.modules.pop(m.__name__, None)
+
+    def submodule(self, suffix: str):
+        """a second TOP-LEVEL module of this universe (classes placed there are foreign to the classes that refer to them)"""
+        if not hasattr(self, "submodules"):
+            self.submodules = {}
+        if suffix not in self.submodules:
+            m = types.ModuleType(f"{self.modname}_{suffix}")
+            sys.modules[m.__name__] = m
+            self.submodules[suffix] = m
+        return self.submodules[suffix]
 
     def _pyname(self, name: str) -> str:
         base = re.sub(r"\W", "_", name) or "_"
@@ -119,9 +131,10 @@ class Registry:
         self.used_pynames.add(cand)
         return cand
 
-    def _register(self, cls, name, term):
-        cls.__module__ = self.modname
-        setattr(self.module, cls.__name__, cls)
+    def _register(self, cls, name, term, module=None):
+        mod = self.submodule(module) if module else self.module
+        cls.__module__ = mod.__name__
+        setattr(mod, cls.__name__, cls)
         self.term_name[cls] = name
         self.by_name[name] = cls
         self.defs[cls] = term
@@ -137,10 +150,11 @@ def _enum_class(term, reg: Registry):
     base = {"Enum": enum.Enum, "IntEnum": enum.IntEnum, "StrEnum": enum.StrEnum,
             "Flag": enum.Flag, "IntFlag": enum.IntFlag}[kind]
     pyname = reg._pyname(name)
-    cls = base(pyname, [(m[0], concretize_value(m[1], reg)) for m in members], module=reg.modname)
+    emod = get_opt(term[4], "module") if len(term) > 4 else None
+    cls = base(pyname, [(m[0], concretize_value(m[1], reg)) for m in members], module=reg.submodule(emod).__name__ if emod else reg.modname)
     cls.__qualname__ = pyname
     reg.by_def[key] = cls
-    reg._register(cls, name, term)
+    reg._register(cls, name, term, module=emod)
     return cls
 
 
@@ -334,6 +348,8 @@ def concretize_type(t, reg: Registry):
         return typing.Annotated[concretize_type(t[1], reg), "verif-annotation"]
     if tag == "dc":
         return _dc_class(t, reg)
+    if tag == "fwd" and t[1] == "#self":
+        return typing.Self                # <<"fwd", "#self", U>>: the annotation typing.Self (U is its unfolded meaning, spec side only)
     if tag == "fwd":
         # forward reference: the annotation is the NAME; the class is defined after the class that refers to it
         reg.pending_fwd.append(t[2])
